@@ -174,13 +174,14 @@ def drawVerdict (a : Alpha) (chars : Cell → List Cell) (impl : String) (maxW m
     | _ => "FAIL draw malformed surface"
   | _ => "FAIL draw malformed surface"
 
-/-- The lines of a hard-wrapped text, from the property text: the cells split at the "\n" cells
-(a final "\n" adds no line; no cells, no lines). -/
+/-- The lines of a hard-wrapped text, from the property text ("a hard line break always ends the
+current line"): the cells split at the hard line breaks (`term`: "\n", "\r\n", "\r", U+2028, …; a
+final one adds no line; no cells, no lines). -/
 def splitNl (cells : List Cell) : List (List Cell) :=
   let rec go : List Cell → List Cell → List (List Cell)
     | [], cur => [cur.reverse]
     | c :: rest, cur =>
-      if c.nl then (if rest.isEmpty then [cur.reverse] else cur.reverse :: go rest [])
+      if c.term then (if rest.isEmpty then [cur.reverse] else cur.reverse :: go rest [])
       else go rest (c :: cur)
   if cells.isEmpty then [] else go cells []
 
@@ -343,16 +344,16 @@ def step (line : String) : String :=
     | some a, some ids, some stys =>
       let cells := (ids.zip stys).map fun p => mkCell a p.1 p.2
       let model := encLines (hardLines cells)
-      -- oracle: the lines are the input split at "\n" cells (a final "\n" adds no line)
+      -- oracle: the lines are the input split at the hard line breaks (a final one adds no line)
       let v := match decLines a impl with
         | none => "FAIL hard unparsable"
         | some ls =>
           let joined : List (List Nat) := ls.map fun (l : List Cell) => l.map tokOf
           let rec split : List Cell → List Nat → List (List Nat)
             | [], cur => [cur.reverse]
-            | c :: rest, cur => if c.nl then (if rest.isEmpty then [cur.reverse] else cur.reverse :: split rest []) else split rest (tokOf c :: cur)
+            | c :: rest, cur => if c.term then (if rest.isEmpty then [cur.reverse] else cur.reverse :: split rest []) else split rest (tokOf c :: cur)
           let exp := if cells.isEmpty then [] else split cells []
-          if joined == exp then "ok" else "FAIL hard_wrap lines differ from the split at newlines"
+          if joined == exp then "ok" else "FAIL hard_wrap lines differ from the split at the hard line breaks"
       s!"{model}\t{impl}\t{v}"
     | _, _, _ => bad
   | _ => bad
